@@ -305,6 +305,11 @@ func (d *storeDriver) run(sc *StoreScenario) error {
 			err = st.RemoveSession(ctx, op.Sid)
 		case "sweep":
 			err = st.RemoveAllExpired(ctx)
+		case "flood":
+			// op.V other sessions are created (a busy service holds thousands): ids do not interfere
+			for k := 0; k < op.V && err == nil; k++ {
+				err = st.SetAuthorizationState(ctx, fmt.Sprintf("flood-%s-%d", op.Sid, k), d.auths[k%len(d.auths)])
+			}
 		}
 		if hit != nil {
 			mr.Server().SetPreHook(nil)
